@@ -118,9 +118,13 @@ def make_case(slot, rnd, variant, boundary=None, lay=L48, wrap=False):
     regs[IM] = rnd.randrange(3)
     regs[HALT] = 1 if (lead[0] == 0x76 and rnd.random() < 0.5) else 0
     regs[MEMPTR] = rnd.randrange(65536)
-    if len(lead) > 1 and lead[0] == 0xED and lead[1] >= 0xA0 and rnd.random() < 0.6:
-        bc = rnd.choice((0, 1, 2, 0x100, 0x101, 0x4001, 0x4100, 0x7F00, 0x0140, 0xC001, 0xC100, 0xFFFE, 0x01C0))
-        regs[B], regs[C] = bc >> 8, bc & 255
+    if len(lead) > 1 and lead[0] == 0xED and lead[1] >= 0xA0:
+        # the counter in fixed variants: 0 (65536 more iterations: repeats), 1 (last iteration), 2; B = 1 / 0 for block I/O
+        bc = {0: 0, 1: 1, 2: 2, 3: 0x0100, 4: 0x0001, 5: 0x00FF}.get(variant % 8) if boundary is None else (0, 1, 2, 0)[boundary % 4]
+        if bc is None and rnd.random() < 0.6:
+            bc = rnd.choice((0, 1, 2, 0x100, 0x101, 0x4001, 0x4100, 0x7F00, 0x0140, 0xC001, 0xC100, 0xFFFE, 0x01C0))
+        if bc is not None:
+            regs[B], regs[C] = bc >> 8, bc & 255
     if lead[0] == 0x10 and rnd.random() < 0.5:
         regs[B] = rnd.choice((0, 1, 2))
     if wrap:
